@@ -299,7 +299,8 @@ def _run_harness_chunk(binp, case_path, ans_path, ncases, env_extra=None):
     return crashes
 
 
-DRIVER_OVERRIDE = None
+DRIVER_OVERRIDE = os.environ.get("VERIF_DRIVER") or None   # development only: another build of the driver
+ORACLE_UNCERTIFIED = []   # diagnostic lines of the driver: oracle answers used without a certificate
 
 
 def _run_driver(case_path, ans_path):
@@ -312,6 +313,9 @@ def _run_driver(case_path, ans_path):
         out = e.stdout.decode("utf-8", "replace") if isinstance(e.stdout, bytes) else (e.stdout or "")
         p = subprocess.CompletedProcess(e.cmd, 124, out, f"driver timed out after {limit} s")
     res = []
+    for l in (p.stderr or "").split("\n"):
+        if l.startswith("ORACLE-UNCERTIFIED"):
+            ORACLE_UNCERTIFIED.append(l[:400])
     for l in p.stdout.split("\n"):
         if not l.strip():
             continue
